@@ -74,16 +74,23 @@ def analyze(prog, mod, name):
     S.iterative = name.startswith("iterative")
     S.problems = []   # (kind, node, text) structural problems found while analysing
     # ---- acceptance site(s)
-    S.where_stmts = []
-    for st in A.walk_local(fn):
-        if isinstance(st, ast.Assign) and is_where0(st.value):
-            S.where_stmts.append(st)
+    # the acceptance site: the (canonically unique) expression np.where(mask)[0], wherever it is written
+    sites = {}
+    for n in A.walk_local(fn):
+        if isinstance(n, ast.Subscript) and is_where0(n):
+            st = A.enclosing_stmt(n)
+            m = flow.resolve(n.value.args[0], at=st)
+            sites.setdefault(canon(m), []).append((n, st, m))
+    S.where_stmts = list(sites)          # distinct acceptance masks
     S.acc = None
-    if len(S.where_stmts) == 1:
-        st = S.where_stmts[0]
+    S.gname = None
+    if len(sites) == 1:
+        occ = sorted(list(sites.values())[0], key=lambda x: x[1].lineno)
+        n, st, mask = occ[0]
         S.acc_stmt = st
-        S.gname = st.targets[0].id if isinstance(st.targets[0], ast.Name) else None
-        mask = flow.resolve(st.value.value.args[0], at=st)
+        if isinstance(st, ast.Assign) and isinstance(st.targets[0], ast.Name) and st.value is n:
+            S.gname = st.targets[0].id
+        S.acc_expr = n
         S.mask = mask
         S.acc = split_mask(mask)
     # ---- make_full_samples* call
